@@ -127,3 +127,11 @@ chk("C19", "exploration",
     "flushes). Then O1 or C is released first (one process per order so a crash is attributable), the survivor is used again, and LeakSanitizer must be clean.",
     "Operation histories are sampled; equivalence is judged on the answers of the public API, not on internal state.",
     "twin-object differential histories under ASan/LSan", "3/C19")
+chk("C07", "exploration",
+    "Structured mutants of archives in every dialect (truncation at 512-byte boundaries and random offsets, every header field overwritten with hostile values with and without a repaired checksum, type flags, "
+    "PAX record edits, old-GNU and 1.0 sparse-map edits, all hard-link graphs over 3 (quick) / 4 (thorough) names including cycles, self links, links to directories and missing names, GNU long-name records, "
+    "damaged compressed wrappers, junk) are piped into the ASan+UBSan tar2sqfs; mutated pack, sort and xattr files (every hostile fragment as its own line and appended to lines, plus random edits, CRLF, NUL, "
+    "very long lines, '..' paths, link cycles) are given to gensquashfs. Oracle: no sanitizer report, signal or hang (two-step watchdog); exit 0 requires an image that the independent parser decodes and "
+    "validates; exit != 0 requires a diagnostic on stderr and no output file.",
+    "Generated mutants only (libFuzzer targets from the design are not built). One open finding is matched by key (sparse member declaring a 2^62-byte size).",
+    "structured mutation + ASan/UBSan CLI replay with image validation", "3/C07")
